@@ -138,13 +138,23 @@ def gen_readbytes(rng, count):
 
 
 def gen_memory(rng, quick):
-    dmg = [["trunc", 0], ["trunc", 1], ["frac", 1, 2], ["frac", 9, 10], ["trunc", 10 ** 9], ["extend", 1], ["extend", 9],
-           ["double"]]
+    """output.pkl of a real entry is cut at EVERY length for small entries (a cut inside a fixed-width pickle
+    field -- FRAME length, BINFLOAT, BININT, length prefixes -- raises struct.error, not EOFError), boundary-biased
+    for large ones, and extended by 1 / 9 bytes / itself."""
+    ext = [["extend", 1], ["extend", 9], ["double"]]
+    small = [{"kind": "small", "n": 30}, {"kind": "nested", "n": 4, "seed": rng.randrange(1000)},
+             {"kind": "ints", "n": 12, "seed": rng.randrange(1000)}]
+    large = [{"kind": "bytes", "n": 9000, "seed": 1}]
+    if not quick:
+        small.append({"kind": "strs", "n": 30, "seed": 2})
+        large.append({"kind": "nested", "n": 40, "seed": 3})
     cases = []
     for comp in [False, True, ["gzip", 3]] + ([] if quick else [["bz2", 3], ["lzma", 3], 9]):
-        for obj in [{"kind": "small", "n": 30}, {"kind": "bytes", "n": 9000, "seed": 1}] + (
-                [] if quick else [{"kind": "nested", "n": 8, "seed": 3}]):
-            cases.append({"kind": "memory", "obj": obj, "compress": comp, "damage": dmg})
+        for obj in small:
+            cases.append({"kind": "memory", "obj": obj, "compress": comp, "damage": [["trunc_all"]] + ext})
+        for obj in large:
+            cases.append({"kind": "memory", "obj": obj, "compress": comp,
+                          "damage": [["trunc_auto", 80 if quick else 600]] + ext})
     return cases
 
 
@@ -400,7 +410,7 @@ def run(ctx):
             nontrivial.add(json.dumps(c))
     # ---- 5. Memory
     mcases = gen_memory(ctx.rng, quick)
-    mres = run_watchdog(mcases, nproc=6)
+    mres = run_watchdog(mcases, nproc=NPROC)
     for c, r in zip(mcases, mres):
         if "watchdog" in r:
             hang.append(("Memory case got no result: " + r["watchdog"], c))
@@ -463,8 +473,9 @@ def run(ctx):
                 "bytes, a second valid file}; BytesIO and real paths. file-object layer: every truncation length of three "
                 "small zlib/gzip streams (one with _BUFFER_SIZE 16) and boundary-biased cuts of a 30000-byte 4-block stream, "
                 "trailers incl. 8192/20000 bytes. _read_bytes: data 0..1000 bytes, sizes around the data length, 0-12 capped "
-                "reads incl. 0-byte reads. Memory: compress {False, True, gzip%s} x damage {cut to 0, 1, half, 9/10, "
-                "len-1; +1, +9 bytes, doubled}. non-trivial = a damaged input (distinct by object/compressor/cut)"
+                "reads incl. 0-byte reads. Memory: compress {False, True, gzip%s} x entries {small dict with float/ints, nested, "
+                "12 ints: output.pkl cut at EVERY length; 9000 random bytes: boundary-biased cuts} + extended by 1, 9 bytes, "
+                "itself. non-trivial = a damaged input (distinct by object/compressor/cut)"
                 % (", numpy arrays" if have_np else "", "" if quick else ", bz2, lzma, 9"),
         "samples": [lcases[0], zcases[5], rb_cases[0], mcases[0]],
         "traces_validated_against_impl": zstats["model_evals"] + len(rb_cases) + len(lcases),
